@@ -17,6 +17,7 @@ import DiskfsModel.Proofs.FatFlatFs
 import DiskfsModel.Proofs.FatTreeStep
 import DiskfsModel.Proofs.FatTreeFit
 import DiskfsModel.Proofs.FatTreeImgCheck
+import DiskfsModel.Proofs.FatTreeImgWr
 import DiskfsModel.Proofs.FatTreeImgStep
 import DiskfsModel.Generated.Fat
 import DiskfsModel.Proofs.FatBoot
@@ -438,5 +439,19 @@ example : entryChainOkB exTGeom2 8 exTree2.m
 example : entryChainOkB exTGeom2 8 exTree2.m
     { short := [65], ext := [], long := [], attr := 0, lcase := 0, cTime := 0, cDate := 0, aDate := 0, mTime := 0,
       mDate := 0, cluster := 2, size := 64 } = true := by decide
+
+/-- **dir_rewrite_holds_image**: the operational side of one rewrite. `writeDirectoryEntries` of
+    the tree model (grow or shrink the chain to the clusters the entries need, one WriteAt per
+    cluster), handed an image that fills the directory's new chain exactly — as `entriesToBytes`
+    of the child list does (`level_image_length`) — leaves that chain reading as the image; the
+    fixed root region of FAT12/16 reads as the fixed-size image. For every table, device, chain. -/
+theorem dir_rewrite_holds_image (g : TGeom) (fuel : Nat) (m : CMap) (d : Dev) (chain : List Nat) (base : Nat)
+    (ks : List TNode) (img : Bytes) (w : WD) (R : List (List Nat))
+    (hg : TGeomOk g) (hfuel : g.f.lim - 2 ≤ fuel)
+    (h : Inv g.f.kind g.f.lim m (chainOwner chain ++ R))
+    (hw : writeDir g fuel m d chain base ks img = .ok w) :
+    (chain ≠ [] → img.length = w.chain.length * g.f.io.bpc → chainBytes w.d g.f.io w.chain = img) ∧
+    (chain = [] → img.length = 32 * g.rootCap → readAt w.d g.rootOff (32 * g.rootCap) = img) :=
+  writeDir_holds_image hg hfuel h hw
 
 end Diskfs.Fat.C08
